@@ -446,6 +446,59 @@ def chain_terminate(res, rep):
             res.violation(f"termination-sequence-differs-from-popen:{kind}", f"rep {rep}: (items, prompt) = {got}, direct popen gives {want}")
 
 
+def kill_equivalence(res, rep):
+    """a worker that dies looks the same from the initiator whatever the transport: what receive(), waitclose(), a later
+    send and remote_exec answer on popen is what they answer on a proxied and on a socket gateway"""
+    import os
+    import signal
+
+    import execnet
+
+    observed = {}
+    for kind in ("popen", "via", "socket"):
+        group = execnet.Group()
+        try:
+            if kind == "popen":
+                gw = group.makegateway("popen")
+            else:
+                group.makegateway("popen//id=m")
+                gw = group.makegateway("popen//via=m" if kind == "via" else "socket//installvia=m")
+            ch = gw.remote_exec("import os\nchannel.send(os.getpid())\nchannel.send('item')\nchannel.receive()")
+            other = gw.remote_exec("channel.receive()")
+            pid = ch.receive(20)
+            if kind == "socket":
+                # the socket worker lives in the process of its host gateway: that process is what dies
+                pass
+            os.kill(pid, signal.SIGKILL)
+            obs = []
+            for what, fn in (("receive", lambda: ch.receive(20)), ("receive-again", lambda: ch.receive(20)), ("waitclose", lambda: ch.waitclose(20)),
+                             ("other-waitclose", lambda: other.waitclose(20)), ("other-receive", lambda: other.receive(20)),
+                             ("send", lambda: ch.send(1)), ("remote_exec", lambda: gw.remote_exec("pass")), ("newchannel", gw.newchannel)):
+                try:
+                    r = fn()
+                    obs.append((what, "returned " + (repr(r) if what.startswith("receive") else "")))
+                except BaseException as e:  # noqa
+                    obs.append((what, type(e).__name__))
+            gw.join(10)
+            obs.append(("hasreceiver", gw.hasreceiver()))
+            # (an item that was still unread when the process died may be lost on TCP - a reset discards it -: what is
+            #  compared is how the end of the stream is reported)
+            observed[kind] = [o for o in obs if o[0] != "receive"]
+            res.count("control_checks")
+            res.case(core.h64("kill-equivalence", kind))
+        except BaseException as e:  # noqa
+            observed[kind] = f"{type(e).__name__}: {str(e)[-200:]}"
+        finally:
+            try:
+                group.terminate(2.0)
+            except BaseException:  # noqa
+                pass
+    for kind in ("via", "socket"):
+        if observed.get(kind) != observed.get("popen"):
+            diff = [(a, b) for a, b in zip(observed.get(kind) or [], observed.get("popen") or []) if a != b] if isinstance(observed.get(kind), list) else observed.get(kind)
+            res.violation(f"killed-worker-looks-different-from-popen:{kind}", f"rep {rep}: {kind} vs popen: {short(diff, 400)}")
+
+
 def run_control(spec):
     """wait / kill / close_write reach the proxied process"""
     import execnet
@@ -454,6 +507,7 @@ def run_control(spec):
     for rep in range(spec["reps"]):
         if rep % 5 == 0:
             chain_terminate(res, rep)
+            kill_equivalence(res, rep)
         for action in ("kill", "exit_wait", "close_write", "terminate_hanging", "terminate_hanging_mto"):
             group = execnet.Group()
             try:
